@@ -309,6 +309,31 @@ pub fn tamper_stream(out: &mut Out, tier: &str, seed: u64, c02: bool, c17: bool)
                     }
                 }
             }
+            // object API with associated data: pushed through DryocStream, every change of the associated data
+            // (and a sample of ciphertext bits) is rejected by DryocStream::pull, and the classic pull with the right
+            // associated data accepts what the object API pushed
+            if c02 && adl > 0 && len % 5 == 0 {
+                let (mut push, hdr): (DryocStream<Push>, StackByteArray<24>) = DryocStream::init_push(&StackByteArray::<32>::from(&key));
+                let co: Vec<u8> = match guard(|| push.push_to_vec(&m, Some(&ad), Tag::MESSAGE)) { Outcome::Ok(c) => c, _ => { out.hit("obj.stream.push.fails", format!("len {}", len), json!({"len":len})); continue; } };
+                let rp = json!({"op":"obj.DryocStream.pull","key":hx(&key),"header":hx(hdr.as_array()),"c":hx(&co),"ad":hx(&ad)});
+                let fresh = || -> DryocStream<Pull> { DryocStream::init_pull(&StackByteArray::<32>::from(&key), &hdr) };
+                out.search_evaluations += 2;
+                match guard(|| fresh().pull_to_vec(&co, Some(&ad))) { Outcome::Ok((pm, _)) if pm == m => {}, _ => out.hit("obj.stream.pull.rejects-untampered", format!("len {} adlen {}", len, adl), rp.clone()) }
+                { let mut cl = d_init(hdr.as_array(), &key); let (cr, cm, _) = d_pull(&mut cl, &co, &ad, len); if !(cr.is_ok() && cm == m) { out.hit("obj.stream.push.classic-pull-with-the-associated-data-rejects", format!("len {} adlen {}", len, adl), rp.clone()); } }
+                let mut ads: Vec<(String, Option<Vec<u8>>)> = vec![("ad dropped".into(), None), ("ad emptied".into(), Some(vec![])), ("ad truncated".into(), Some(ad[..ad.len() - 1].to_vec())), ("ad extended".into(), Some([ad.clone(), vec![0u8]].concat()))];
+                for bit in 0..(ad.len() * 8) { let mut a2 = ad.clone(); a2[bit / 8] ^= 1 << (bit % 8); ads.push((format!("ad bit {}", bit), Some(a2))); }
+                for (what, a2) in ads {
+                    out.search_evaluations += 1;
+                    let r = guard(|| fresh().pull_to_vec(&co, a2.as_ref()));
+                    if !r.is_err() { out.hit("obj.stream.pull.accepts-tampered.ad", format!("{} len {} adlen {} ({})", what, len, adl, r.class()), rp.clone()); }
+                }
+                for bit in (0..co.len() * 8).step_by(11) {
+                    let mut c2 = co.clone(); c2[bit / 8] ^= 1 << (bit % 8);
+                    out.search_evaluations += 1;
+                    let r = guard(|| fresh().pull_to_vec(&c2, Some(&ad)));
+                    if !r.is_err() { out.hit("obj.stream.pull.accepts-tampered.ciphertext", format!("bit {} len {} ({})", bit, len, r.class()), rp.clone()); }
+                }
+            }
         }
     }
 }
